@@ -994,4 +994,19 @@ Proof. intros H Horth. revert n H. induction fuel as [|f IH]; intros n H Hrng; [
   rewrite (eval_term_tg_set tg (targets_of prov (oroot k)) r0 (oroot k) (fun x => iff_sym (Hs x))).
   rewrite (IH k Hck) by (intros x Hx; apply Hrng; apply Hs; exact Hx).
   apply ksum_ext. intros x _. apply eval_term_tg_set. exact Hs. Qed.
+(* ---------- mixed-position pairs (U_qp U_pr) ----------
+   The code only pairs tensors that share their first or their second index;
+   the model leaves mixed-position pairs untouched as well.  For a carrier with
+   transposition symmetry U_xy = s U_yx the mixed contraction is s delta_qr:
+   +delta for a bra-ket symmetric, -delta for a bra-ket antisymmetric
+   orthogonal tensor - a rule "U_qp U_pr -> delta_qr" is wrong for the latter. *)
+Theorem mixed_position_sum name R c1 c2 (sg : bool) :
+  orthogonal name R ->
+  (forall x y, mat name c1 x y = ksgn sg * mat name c1 y x) ->
+  forall x y, In x R -> In y R ->
+    ksum R (fun o => mat name c1 x o * mat name c2 o y) = ksgn sg * (if Nat.eqb x y then 1 else 0).
+Proof. intros Horth Hsym x y Hx Hy.
+  rewrite (ksum_ext S R _ (fun o => ksgn sg * (mat name c1 o x * mat name c2 o y))).
+  - rewrite ksum_scal. destruct (Horth c1 c2 x y Hx Hy) as [O1 _]. rewrite O1. reflexivity.
+  - intros o _. rewrite (Hsym x o). ring. Qed.
 End Sums.
